@@ -7,6 +7,7 @@ with the lengths of the offset and weight vectors, as written by the constructor
 * `init n`            `Circuit::Circuit(n)`: `netLimits_.push_back(0)`
 * `addNet`            length test, pin-range loop, early return on an empty net, then the five appends
 * `setNets`           the four validation blocks in source order, then the five assignments and the `resize`
+* `setNetWeights`     the length test, then the assignment
 * `Wf`                the value invariant: `netLimits_` non-empty, starts at 0, non-decreasing, ends at
                       `pinCells_.size()`; every pin names an existing cell; the per-pin vectors and the weights have
                       the lengths the limits imply (this part repeats `BusySizes.SizesConsistent` on the value state)
@@ -61,15 +62,21 @@ def setNets (s : Nets) (limits cells : List Int) (nxo nyo nwt : Nat) : Option Ne
   else if pinsInRange s.nbCells cells = false then none
   else some { s with limits := limits, pins := cells, nx := nxo, ny := nyo, nw := limits.length - 1 }
 
+/-- `Circuit::setNetWeights(w)` with `nwt = w.size()`: refused unless there is one weight per net -/
+def setNetWeights (s : Nets) (nwt : Nat) : Option Nets :=
+  if (nwt : Int) ≠ (s.limits.length : Int) - 1 then none else some { s with nw := nwt }
+
 /-- one call of the public net API -/
 inductive Op where
   | add (cells : List Int) (nxo nyo : Nat)
   | set (limits cells : List Int) (nxo nyo nwt : Nat)
+  | weights (nwt : Nat)
   deriving Repr, DecidableEq
 
 def apply? (s : Nets) : Op → Option Nets
   | .add c x y => addNet s c x y
   | .set l c x y w => setNets s l c x y w
+  | .weights w => setNetWeights s w
 
 /-- a refused call leaves the circuit as it was -/
 def step (s : Nets) (o : Op) : Nets := (apply? s o).getD s
